@@ -619,3 +619,39 @@ func firstWord(s string) string {
 	}
 	return strings.Trim(f[0], ":")
 }
+
+// ReplayAttribution / ReplayInjection re-execute recorded counterexamples of
+// the end-to-end halves of C15 / C17.
+func ReplayAttribution(input json.RawMessage) (bool, string) {
+	var in AttrInput
+	if err := json.Unmarshal(input, &in); err != nil {
+		return false, err.Error()
+	}
+	why := checkAttribution(in)
+	return why != "" && why != "HUNG", fmt.Sprintf("script=%v cfg=%s: %s", in.Script, CfgName(in.Cfg), why)
+}
+
+func ReplayInjection(input json.RawMessage) (bool, string) {
+	var in InjInput
+	if err := json.Unmarshal(input, &in); err != nil {
+		return false, err.Error()
+	}
+	why := checkInjection(in)
+	return why != "" && why != "HUNG", fmt.Sprintf("%s at packet %d: %s", in.Note, in.At, why)
+}
+
+// ReplayMarshal re-executes a history and serialises every delivery.
+func ReplayMarshal(input json.RawMessage) (bool, string) {
+	var in HistInput
+	if err := json.Unmarshal(input, &in); err != nil {
+		return false, err.Error()
+	}
+	h := in.build()
+	out := Run(h, Opts{Start: ref.Position{File: h.Files[0].Name, Pos: 4}, ServerID: 3, KeepTx: true})
+	for _, d := range out.Deliveries {
+		if why := CheckMarshal(d.Tx, d.Snap); why != "" {
+			return true, why
+		}
+	}
+	return false, "all deliveries serialise faithfully"
+}
